@@ -2,7 +2,7 @@
    Directives in force: those of ExtrOcamlBasic, ExtrOcamlChar, ExtrOcamlString
    (listed in DESIGN.md section 6); nat/N/Z/positive stay inductive. *)
 From Coq Require Extraction ExtrOcamlBasic ExtrOcamlChar ExtrOcamlString.
-From CV Require Import Model.Base Model.Effector Model.RoleGraph Model.PathMatch Model.Expr Model.Enforce Model.Engine Model.SpecC01 Model.Cached Model.Csv Model.Ini Model.SpecC14 Model.SpecC15 Model.SpecC09 Model.SpecC12 Model.SpecC08 Model.SpecC19 Model.SpecC04 Model.SpecC05 Model.SpecC13 Model.SpecC07 Model.SpecC11 Model.SpecC18.
+From CV Require Import Model.Base Model.Effector Model.RoleGraph Model.PathMatch Model.Expr Model.Enforce Model.Engine Model.SpecC01 Model.Cached Model.Csv Model.Ini Model.SpecC14 Model.SpecC15 Model.SpecC09 Model.SpecC12 Model.SpecC08 Model.SpecC19 Model.SpecC04 Model.SpecC05 Model.SpecC13 Model.SpecC07 Model.SpecC11 Model.SpecC18 Model.SpecC16.
 Extraction Blacklist String List Char Bool Nat.
 Set Extraction KeepSingleton.
 Extraction "../extracted/model.ml"
@@ -20,4 +20,5 @@ Extraction "../extracted/model.ml"
   c12_pred c09_pred
   c08_pred shallow_state c19_pred known_shared_rm_case enforce_indep
   c04_check ideal_of ideal_step
-  fresh_of syncedb gfuns_exactb c18_pred c11_pred.
+  fresh_of syncedb gfuns_exactb c18_pred c11_pred
+  c16_csv_pred c16_file_pred c16_model_equiv.
